@@ -49,6 +49,7 @@ class Potential_Form_Registry(object):
     if register_pymath_functions:
       self._register_pymath_functions()
 
+    self._check_labels_differ_by_more_than_case()
     self._register_with_each_other()
 
     self._definitions = definitions
@@ -101,6 +102,15 @@ class Potential_Form_Registry(object):
       table_forms[d.name] = pf
     return table_forms
 
+
+  def _check_labels_differ_by_more_than_case(self):
+    # Inside expressions function names are not case-sensitive: two potential forms whose labels
+    # differ only by case would be one function there (the second registered silently wins).
+    seen = {}
+    for label in sorted(self._potential_forms):
+      if label.lower() in seen:
+        raise Potential_Form_Registry_Exception("The potential forms '{0}' and '{1}' have the same label (labels are not case-sensitive)".format(seen[label.lower()], label))
+      seen[label.lower()] = label
 
   def _register_with_each_other(self):
     # So that each function can rely on other custom functions, add each function to every other
